@@ -98,6 +98,41 @@ fn may_discard(e: &AttributeError) -> bool {
     (opt && !trans) || e.attr_code == Attribute::AS4_PATH || e.attr_code == Attribute::AS4_AGGREGATOR
 }
 
+
+/// Vec with ONE fixed allocation of N slots and a (possibly symbolic) length <= N: no growth or
+/// reallocation path exists for CBMC to explore.
+fn fixed_vec<T, const N: usize>(items: [T; N], len: usize) -> Vec<T> {
+    assert!(len <= N);
+    let p = Box::into_raw(Box::new(items)) as *mut T;
+    unsafe { Vec::from_raw_parts(p, len, N) }
+}
+
+fn v4_entry(addr: u32, mask: u8) -> Vec<PathNlri> {
+    fixed_vec(
+        [PathNlri {
+            path_id: 0,
+            nlri: Nlri::V4(Ipv4Net {
+                addr: Ipv4Addr::from(addr),
+                mask,
+            }),
+        }],
+        1,
+    )
+}
+
+fn v6_entry(addr: u128, mask: u8) -> Vec<PathNlri> {
+    fixed_vec(
+        [PathNlri {
+            path_id: 0,
+            nlri: Nlri::V6(Ipv6Net {
+                addr: Ipv6Addr::from(addr),
+                mask,
+            }),
+        }],
+        1,
+    )
+}
+
 #[derive(Default, Clone, Copy)]
 struct UpdSum {
     n: usize,
@@ -129,7 +164,7 @@ fn is_v6(p: &PathNlri, addr: u128, mask: u8) -> bool {
 
 /// symbolic ParsedUpdate::Routes of a fixed small shape; returns the summary of
 /// validate_update's output together with the facts the oracle needs
-fn classify(shape_attrs: u8, with_mp: bool) {
+fn classify(shape_attrs: u8, has_reach: bool, has_unreach: bool, has_mp: bool) -> (bool, bool, u8, usize, bool) {
     let is_ebgp: bool = kani::any();
     // announced IPv4 prefix A, withdrawn IPv4 prefix W
     let a_addr: u32 = kani::any();
@@ -142,22 +177,13 @@ fn classify(shape_attrs: u8, with_mp: bool) {
     let a6_mask: u8 = kani::any();
     kani::assume(a6_mask <= 128);
 
-    let has_reach: bool = kani::any();
-    let has_unreach: bool = kani::any();
-    let has_mp: bool = if with_mp { kani::any() } else { false };
     let nh_present: bool = kani::any();
     let mp_nh_present: bool = kani::any();
 
     let reach = if has_reach {
         Some(ReachNlri {
             family: Family::IPV4,
-            entries: vec![PathNlri {
-                path_id: 0,
-                nlri: Nlri::V4(Ipv4Net {
-                    addr: Ipv4Addr::from(a_addr),
-                    mask: a_mask,
-                }),
-            }],
+            entries: v4_entry(a_addr, a_mask),
             nexthop: if nh_present {
                 Some(Nexthop::V4(Ipv4Addr::from(kani::any::<u32>())))
             } else {
@@ -170,13 +196,7 @@ fn classify(shape_attrs: u8, with_mp: bool) {
     let mp_reach = if has_mp {
         Some(ReachNlri {
             family: Family::IPV6,
-            entries: vec![PathNlri {
-                path_id: 0,
-                nlri: Nlri::V6(Ipv6Net {
-                    addr: Ipv6Addr::from(a6_addr),
-                    mask: a6_mask,
-                }),
-            }],
+            entries: v6_entry(a6_addr, a6_mask),
             nexthop: if mp_nh_present {
                 Some(Nexthop::V6(Ipv6Addr::from(kani::any::<u128>())))
             } else {
@@ -189,13 +209,7 @@ fn classify(shape_attrs: u8, with_mp: bool) {
     let unreach = if has_unreach {
         Some(UnreachNlri {
             family: Family::IPV4,
-            entries: vec![PathNlri {
-                path_id: 0,
-                nlri: Nlri::V4(Ipv4Net {
-                    addr: Ipv4Addr::from(w_addr),
-                    mask: w_mask,
-                }),
-            }],
+            entries: v4_entry(w_addr, w_mask),
         })
     } else {
         None
@@ -228,13 +242,7 @@ fn classify(shape_attrs: u8, with_mp: bool) {
     };
     let must_withdraw_err =
         (n_err >= 1 && !may_discard(&e0)) || (n_err >= 2 && !may_discard(&e1));
-    let mut error_attrs = Vec::with_capacity(2);
-    if n_err >= 1 {
-        error_attrs.push(e0);
-    }
-    if n_err >= 2 {
-        error_attrs.push(e1);
-    }
+    let error_attrs = fixed_vec([e0, e1], n_err as usize);
 
     let announces = has_reach || has_mp;
     let missing_mandatory = announces
@@ -257,7 +265,7 @@ fn classify(shape_attrs: u8, with_mp: bool) {
     assert!(res.is_ok());
     let msgs = match res {
         Ok(m) => m,
-        Err(_) => return,
+        Err(_) => return (false, false, 0, 0, false),
     };
     let mut s = UpdSum::default();
     let mut i = 0;
@@ -347,20 +355,21 @@ fn classify(shape_attrs: u8, with_mp: bool) {
             assert!(s.reach_attr_len == 5);
         }
     }
-    kani::cover!(must_withdraw_err && !missing_mandatory && has_reach);
-    kani::cover!(!must_withdraw && n_err == 2 && has_reach && s.reach_v4 == 1);
-    kani::cover!(is_ebgp && s.reach_v4 == 1);
     core::mem::forget(msgs);
+    (must_withdraw_err, missing_mandatory, n_err, s.reach_v4 + s.reach_v6, is_ebgp)
 }
 
 //@ id=C05 tier=quick cap=900
 //@ fn: bgp::validate_update
-//@ bound: ParsedUpdate::Routes with reach (0/1 IPv4 entry, next hop present/absent), unreach (0/1 entry), attrs = [ORIGIN, AS_PATH(empty), LOCAL_PREF, MED, ORIGINATOR_ID] with symbolic values, 0..2 AttributeErrors with fully symbolic (code, flags), is_ebgp symbolic; unwind 7
+//@ bound: ParsedUpdate::Routes with reach (1 IPv4 entry with symbolic prefix, next hop present/absent) + unreach (1 entry), attrs = [ORIGIN, AS_PATH(empty), LOCAL_PREF, MED, ORIGINATOR_ID] with symbolic values, 0..2 AttributeErrors with fully symbolic (code, flags), is_ebgp symbolic; unwind 7
 //@ desc: RFC 7606 classification vs. the statement: any error on an attribute that is not (optional non-transitive | AS4_PATH | AS4_AGGREGATOR) => no Reach, announced prefix withdrawn, withdrawals kept; never Err; iBGP-only attributes dropped for eBGP
 #[kani::proof]
 #[kani::unwind(7)]
 fn c05_classify_full_attrs() {
-    classify(0, false);
+    let (mw, mm, n_err, reaches, ebgp) = classify(0, true, true, false);
+    kani::cover!(mw && !mm);
+    kani::cover!(!mw && !mm && n_err == 2 && reaches == 1);
+    kani::cover!(ebgp && reaches == 1);
 }
 
 //@ id=C05 tier=quick cap=900
@@ -370,7 +379,9 @@ fn c05_classify_full_attrs() {
 #[kani::proof]
 #[kani::unwind(7)]
 fn c05_classify_missing_origin() {
-    classify(1, false);
+    let (_mw, mm, n_err, reaches, _e) = classify(1, true, false, false);
+    assert!(mm && reaches == 0);
+    kani::cover!(n_err == 0);
 }
 
 //@ id=C05 tier=thorough cap=900
@@ -380,17 +391,22 @@ fn c05_classify_missing_origin() {
 #[kani::proof]
 #[kani::unwind(7)]
 fn c05_classify_missing_aspath() {
-    classify(2, false);
+    let (_mw, mm, n_err, reaches, _e) = classify(2, true, false, false);
+    assert!(mm && reaches == 0);
+    kani::cover!(n_err == 0);
 }
 
 //@ id=C05 tier=quick cap=1200
 //@ fn: bgp::validate_update
-//@ bound: reach (0/1 IPv4 entry) + mp_reach (0/1 IPv6 entry, MP next hop present/absent) + unreach, attrs = [ORIGIN, AS_PATH], 0..2 symbolic AttributeErrors; unwind 7
+//@ bound: reach (1 IPv4 entry) + mp_reach (1 IPv6 entry, MP next hop present/absent), attrs = [ORIGIN, AS_PATH], 0..2 symbolic AttributeErrors; unwind 7
 //@ desc: two-family UPDATE: both announced prefixes withdrawn on a must-withdraw error; missing MP next hop => withdraw
 #[kani::proof]
 #[kani::unwind(7)]
 fn c05_classify_mp() {
-    classify(3, true);
+    let (mw, mm, n_err, reaches, _e) = classify(3, true, false, true);
+    kani::cover!(mw && !mm);
+    kani::cover!(!mw && !mm && reaches == 2);
+    kani::cover!(mm && n_err == 0);
 }
 
 //@ id=C05 tier=thorough cap=900 expect=fail
